@@ -703,6 +703,8 @@ impl FileStateMachine {
         // checkpoint; WAL is only the post-checkpoint delta. Even if 0 entries were applied
         // (e.g. truncated tail only), the WAL is stale. Keeping it would cause infinite
         // replay-of-the-same-truncated-entry on every subsequent startup.
+        #[cfg(feature = "verif-hooks")]
+        crate::verif_exports::crash_point("sm:replay:before_clear");
         self.clear_wal_async().await?;
         debug!(
             "Cleared WAL after replay ({} operations applied)",
@@ -754,6 +756,8 @@ impl FileStateMachine {
             .truncate(true)
             .open(data_path)
             .await?;
+        #[cfg(feature = "verif-hooks")]
+        crate::verif_exports::crash_point("sm:data:after_truncate");
 
         // Batch serialize into a single buffer — eliminates per-entry async yield overhead.
         // Mirrors append_to_wal's approach for consistent I/O pattern.
@@ -771,6 +775,8 @@ impl FileStateMachine {
 
         file.write_all(&buf).await?;
         file.flush().await?;
+        #[cfg(feature = "verif-hooks")]
+        crate::verif_exports::crash_point("sm:data:after_write");
 
         Ok(())
     }
@@ -802,6 +808,8 @@ impl FileStateMachine {
             .truncate(true)
             .open(metadata_path)
             .await?;
+        #[cfg(feature = "verif-hooks")]
+        crate::verif_exports::crash_point("sm:meta:after_truncate");
 
         let index = self.last_applied_index.load(Ordering::SeqCst);
         let term = self.last_applied_term.load(Ordering::SeqCst);
@@ -810,6 +818,8 @@ impl FileStateMachine {
         file.write_all(&term.to_be_bytes()).await?;
 
         file.flush().await?;
+        #[cfg(feature = "verif-hooks")]
+        crate::verif_exports::crash_point("sm:meta:after_write");
         Ok(())
     }
 
@@ -840,6 +850,8 @@ impl FileStateMachine {
 
         file.set_len(0).await?;
         file.flush().await?;
+        #[cfg(feature = "verif-hooks")]
+        crate::verif_exports::crash_point("sm:wal:after_clear");
         Ok(())
     }
 
@@ -1179,6 +1191,8 @@ impl StateMachine for FileStateMachine {
             file.write_all(&wal_buf).await?;
             file.flush().await?;
         }
+        #[cfg(feature = "verif-hooks")]
+        crate::verif_exports::crash_point("sm:apply:after_wal");
 
         // PHASE 3: Fast in-memory updates with minimal lock time
         // (CAS uses pre-computed outcomes — no re-evaluation under write lock)
@@ -1235,6 +1249,8 @@ impl StateMachine for FileStateMachine {
                 }
             }
         } // Lock released immediately - no awaits inside!
+        #[cfg(feature = "verif-hooks")]
+        crate::verif_exports::crash_point("sm:apply:after_memory");
 
         // PHASE 4: Update last applied index and conditionally checkpoint.
         // WAL (written in PHASE 2) is the primary crash-safety path.
@@ -1243,6 +1259,8 @@ impl StateMachine for FileStateMachine {
             debug!("State machine - updated last_applied: {:?}", log_id);
             self.update_last_applied(log_id);
         }
+        #[cfg(feature = "verif-hooks")]
+        crate::verif_exports::crash_point("sm:apply:after_last_applied");
 
         self.wal_entries_since_checkpoint.fetch_add(chunk_len as u64, Ordering::Relaxed);
 
@@ -1564,6 +1582,8 @@ impl StateMachine for FileStateMachine {
         }
 
         // Persist to disk after batch deletion; propagate error so caller can retry
+        #[cfg(feature = "verif-hooks")]
+        crate::verif_exports::crash_point("sm:cleanup:after_memory");
         self.persist_data_async().await?;
 
         info!(
